@@ -293,6 +293,7 @@ pub fn check(c: &Case) -> CheckResult {
     o.class_if(c.path.ops.iter().filter(|p| matches!(p, POp::M(..))).count() > 1, "multi-subpath");
     o.class_if(ncurves >= 2, "multi-curve");
     o.class_if(ncurves >= 1 && flat.ops.len() > 300 * ncurves, "curve-with-more-than-256-segments");
+    o.class_if(ncurves >= 1 && c.path.points().iter().all(|p| p.0.abs() < 0.05 && p.1.abs() < 0.05) && c.tol < 1e-3, "tiny-curves-at-a-fine-tolerance");
     {
         // a MoveTo whose target is exactly the end point of the op before it (not the first op)
         let mut cur: Option<(f32, f32)> = None;
@@ -391,6 +392,10 @@ fn coord4000() -> BoxedStrategy<f32> {
     prop_oneof![4 => -4000.0f32..4000.0, 1 => (-40i32..=40).prop_map(|v| (v * 100) as f32), 1 => -2.0f32..2.0].boxed()
 }
 
+fn coord_tiny() -> BoxedStrategy<f32> {
+    prop_oneof![4 => -0.03f32..0.03, 2 => (-30i32..=30).prop_map(|v| v as f32 / 1000.0), 1 => -0.003f32..0.003].boxed()
+}
+
 fn coord20() -> BoxedStrategy<f32> {
     prop_oneof![4 => -20.0f32..20.0, 2 => (-20i32..=20).prop_map(|v| v as f32), 1 => -2.0f32..2.0].boxed()
 }
@@ -403,7 +408,10 @@ fn strategy() -> BoxedStrategy<Case> {
     // few, large curves at tolerances small enough that one curve needs hundreds to thousands of segments
     let fine200 = (ops_strategy(coord200, 3), any::<bool>(), prop::sample::select(vec![0.002f32, 0.0005, 0.0001]));
     let fine4000 = (ops_strategy(coord4000, 3), any::<bool>(), prop::sample::select(vec![0.02f32, 0.005, 0.001]));
-    prop_oneof![12 => big, 12 => small, 1 => fine200, 1 => fine4000].prop_map(|(ops, evenodd, tol)| Case { path: PathSpec { ops, evenodd }, tol }).boxed()
+    // tiny curves at fine tolerances: control polygons a few hundredths of a unit long, tolerance 1e-4..5e-4 (a
+    // drawing in large units, or the small features of a path stroked under a big transform)
+    let tiny = (ops_strategy(coord_tiny, 5), any::<bool>(), prop::sample::select(vec![1.0e-4f32, 2.0e-4, 5.0e-4]));
+    prop_oneof![12 => big, 12 => small, 1 => fine200, 1 => fine4000, 2 => tiny].prop_map(|(ops, evenodd, tol)| Case { path: PathSpec { ops, evenodd }, tol }).boxed()
 }
 
 // ---------------------------------------------------------------------------
@@ -485,7 +493,7 @@ fn use_strategy() -> BoxedStrategy<UseCase> {
 pub fn property(_ctx: &Ctx) -> Property {
     Property {
         id: "C16",
-        rule: "part ops: paths of 1-10 ops in any order (curve first, directly after Close, after MoveTo, consecutive closes), control points in +-200 with degenerate variants (coincident, collinear, control = end), tolerance in {0.01,0.05,0.1,0.25,1,4}, plus one case in thirteen with 1-3 ops of large curves (+-200 at tolerance 1e-4..2e-3, +-4000 at 1e-3..2e-2) that need hundreds to thousands of segments each; oracle = structural match of flatten() output against the input (MoveTo/LineTo/Close preserved in order; each curve replaced by >=1 LineTo ending exactly at its end point), every replacing vertex on the f64 curve *from its true starting point* (cursor after Close = subpath start) in parameter order, Hausdorff deviation <= 8 x tolerance, and deviation at tolerance/4 <= max(deviation, 8 x tolerance/4). part use: fill(path) vs fill(flatten(path,0.05)) identical farther than 1.5 px (+ pixel radius) from the f64 outline, contains_point agrees farther than 8 x tolerance from it. Non-trivial: >=1 curve; distinct by hash of the case.",
+        rule: "part ops: paths of 1-10 ops in any order (curve first, directly after Close, after MoveTo, consecutive closes), control points in +-200 with degenerate variants (coincident, collinear, control = end), tolerance in {0.01,0.05,0.1,0.25,1,4}, plus one case in thirteen with 1-3 ops of large curves (+-200 at tolerance 1e-4..2e-3, +-4000 at 1e-3..2e-2) that need hundreds to thousands of segments each, and one in fourteen with curves a few hundredths of a unit across at tolerance 1e-4..5e-4; oracle = structural match of flatten() output against the input (MoveTo/LineTo/Close preserved in order; each curve replaced by >=1 LineTo ending exactly at its end point), every replacing vertex on the f64 curve *from its true starting point* (cursor after Close = subpath start) in parameter order, Hausdorff deviation <= 8 x tolerance, and deviation at tolerance/4 <= max(deviation, 8 x tolerance/4). part use: fill(path) vs fill(flatten(path,0.05)) identical farther than 1.5 px (+ pixel radius) from the f64 outline, contains_point agrees farther than 8 x tolerance from it. Non-trivial: >=1 curve; distinct by hash of the case.",
         assumptions: vec!["vertex-on-curve tolerance 1e-4*scale+1e-4 (observed 2e-6*scale)", "the statement does not say flatten keeps the winding rule, so it is not demanded"],
         parts: vec![part_outside_c07("ops", 24_000, 1_500_000, strategy, check), part("use", 6_000, 300_000, use_strategy, check_use)],
         min_class_fraction: vec![("ops", "curve-after-close", 0.1), ("ops", "curve-first", 0.1), ("ops", "multi-curve", 0.3), ("ops", "moveto-to-current-point", 0.05), ("ops", "curve-with-more-than-256-segments", 0.01), ("use", "draw-after-close", 0.1)],
